@@ -166,10 +166,12 @@ RetEnd(fn) ==
   /\ UNCHANGED <<input, limit, faulty, linesMode, isRef, key, binary, delivered, sdone, srcFailed, reported, pos, lns,
                  items, lastGu, ref, skip>>
 
-RetErr(fn, kind, line, col) ==
+\* same: the reported IO error is the very error the source returned (its payload), not a reconstruction
+RetErr(fn, kind, line, col, same) ==
   /\ callOpen = fn
   /\ IF kind = "io"
        THEN /\ srcFailed /\ lastGu[1] \in {"io", "none"}
+            /\ same
             /\ outcome' = <<"io">>
        ELSE /\ kind = "syntax"
             /\ lastGu = <<"syntax", line, col>>        \* the reported location is the one give_up computed
